@@ -274,6 +274,33 @@ def run_equipment(case, ctx):
         ctx.note['rejected'] = str(e)
         return
     check_aliases(ctx, L, EA, 'legacy')
+    # declaring further names must not change the entry itself: the same library without any other_name gives the same
+    # entries under the primary names
+    if any(e.get('other_name') for sec in ('Edfa', 'Transceiver') for e in L.get(sec, [])):
+        L0 = copy.deepcopy(L)
+        for sec in ('Edfa', 'Transceiver'):
+            for e in L0.get(sec, []):
+                e.pop('other_name', None)
+                for m in e.get('mode', []) if sec == 'Transceiver' else []:
+                    m.pop('other_name', None)
+        try:
+            E0 = load_eq(L0)
+        except EquipmentConfigError:
+            E0 = None
+        if E0 is not None:
+            for sec in ('Edfa', 'Transceiver'):
+                for e in L.get(sec, []):
+                    if not e.get('other_name'):
+                        continue
+                    name = e['type_variety']
+                    a, b = vars(EA[sec][name]), vars(E0[sec][name])
+                    if sec == 'Transceiver':
+                        # modes declared under several names are additional entries of the list: compare the common ones
+                        fm = {m['format'] for m in b['mode']}
+                        a = dict(a, mode=[m for m in a['mode'] if m['format'] in fm])
+                    for d in obj_diffs(a, b, limit=3):
+                        ctx.violation(f'alias:declaring-other-names-changes-the-entry:{sec}:{_num_sig(d.split(":")[0])}',
+                                      f'{name}: {d}')
     if C is None or case['cls'] != 'a':
         return
     EC = load_eq(C)
